@@ -117,6 +117,9 @@ def run_shard(shard, rec):
         shadow = i % 5 == 3
         g = prog.Gen(rng, profile="py", max_ops=30 if big else 12, shadow_funcs=shadow, call_bias=0.15 if shadow else 0.0)
         script = g.script()
+        if len(script["phases"]) > 1 and i % 4 == 2:
+            script["shared_ids"] = True
+            rec.count("programs_whose_phases_share_statement_ids")
         if shadow:
             rec.count("programs_with_function_named_like_variable",
                       int(any(not f.startswith("<") for f in script.get("funcs", {}))))
